@@ -24,6 +24,7 @@ fn main() {
         let path = args.get(3).expect("replay needs a path");
         match prop {
             "C01" | "C03" | "C07" => vcore::ck_engine::replay(prop, path),
+            "C08" => vcore::ck_crash::replay(path),
             _ => {
                 eprintln!("no replay for {prop}");
                 std::process::exit(2);
@@ -37,6 +38,7 @@ fn main() {
         };
         match prop {
             "C01" | "C03" | "C07" => vcore::ck_engine::check(prop, tier),
+            "C08" => vcore::ck_crash::check(tier),
             _ => {
                 eprintln!("unknown property {prop}");
                 std::process::exit(2);
